@@ -791,6 +791,67 @@ func c04ConcChild(p string, g, per int) (obs, labels []string) {
 	return
 }
 
+func c04SameName(c *Ctx, dir string) {
+	pub, _, _ := ed25519.GenerateKey(NewRng(7))
+	sp, _ := ssh.NewPublicKey(pub)
+	key := strings.TrimSpace(string(ssh.MarshalAuthorizedKey(sp)))
+	contents := []struct{ tag, reserved, data string }{
+		{"known-hosts", "known_hosts", "host.example,192.0.2.7 " + key + "\nother.example " + key + "\n"},
+		{"authorized-keys", "authorized_keys", "command=\"/bin/true\" " + key + " first\n" + key + " second\n"},
+	}
+	for _, ct := range contents {
+		for _, name := range []string{"hosts.txt", "keys", "backup.bak"} {
+			var outs, labels []string
+			run := func(label, cwd string, stdin string, viaPipe bool, args ...string) {
+				cmd := exec.Command(c.Bin, args...)
+				cmd.Dir = cwd
+				cmd.Env = []string{"PATH=/usr/bin:/bin", "HOME=/nonexistent"}
+				if stdin != "" {
+					if viaPipe {
+						cmd.Stdin = strings.NewReader(ct.data)
+					} else if f, err := os.Open(stdin); err == nil {
+						defer f.Close()
+						cmd.Stdin = f
+					}
+				}
+				out, err := cmd.Output()
+				if err != nil {
+					out = append(out, []byte("[" + err.Error() + "]")...)
+				}
+				outs = append(outs, string(out))
+				labels = append(labels, label)
+			}
+			base := filepath.Join(dir, "samename-"+ct.tag+"-"+name)
+			a, b, d, e := filepath.Join(base, "regular"), filepath.Join(base, "symlink"), filepath.Join(base, "hardlink"), filepath.Join(base, "linked-dir")
+			for _, x := range []string{a, b, d, filepath.Join(e, "real")} {
+				os.MkdirAll(x, 0o755)
+			}
+			os.WriteFile(filepath.Join(a, name), []byte(ct.data), 0o644)
+			os.WriteFile(filepath.Join(b, ct.reserved), []byte(ct.data), 0o644)
+			os.Symlink(ct.reserved, filepath.Join(b, name))
+			os.WriteFile(filepath.Join(d, ct.reserved), []byte(ct.data), 0o644)
+			os.Link(filepath.Join(d, ct.reserved), filepath.Join(d, name))
+			os.WriteFile(filepath.Join(e, "real", name), []byte(ct.data), 0o644)
+			os.Symlink("real", filepath.Join(e, ct.reserved))
+			run("regular file, cwd = its directory", a, "", false, name)
+			run("symbolic link to "+ct.reserved+", cwd = its directory", b, "", false, name)
+			run("hard link of "+ct.reserved+", cwd = its directory", d, "", false, name)
+			run("regular file in a directory that a link named "+ct.reserved+" points to, cwd = that directory", filepath.Join(e, ct.reserved), "", false, name)
+			l, first, firstLabel := c04Distinct(outs, labels)
+			c.Emit("env:samename-"+ct.tag, SL{S(name), SB([]byte(ct.data)), SB([]byte(first)), S(firstLabel)}, l)
+			// standard input: the name is /dev/stdin (or "-") whatever is behind it
+			outs, labels = nil, nil
+			run("stdin redirected from the regular file", a, filepath.Join(a, name), false)
+			run("stdin redirected from a file named "+ct.reserved, b, filepath.Join(b, ct.reserved), false)
+			run("stdin from a pipe", a, "pipe", true)
+			run("stdin redirected from a file named "+ct.reserved+", argument -", b, filepath.Join(b, ct.reserved), false, "-")
+			run("stdin from a pipe, argument -", a, "pipe", true, "-")
+			l, first, firstLabel = c04Distinct(outs, labels)
+			c.Emit("env:samename-stdin-"+ct.tag, SL{S("-"), SB([]byte(ct.data)), SB([]byte(first)), S(firstLabel)}, l)
+		}
+	}
+}
+
 func genC04(c *Ctx) {
 	reps, bigReps, nRandom, conc, concBig := 100, 50, 10, 3, 5
 	if c.Thorough() {
@@ -910,6 +971,13 @@ func genC04(c *Ctx) {
 		l, first, firstLabel = c04Distinct(outs, labels)
 		c.Emit("env:"+in.tag, SL{S(in.name), SB(in.data), SB([]byte(first)), S(firstLabel)}, l)
 	}
+	// the same content under the same (relative) name in different places of the file system: a regular file,
+	// a symbolic link to a file with a reserved SSH name, a hard link, the file reached through a linked
+	// directory, and standard input from a redirect or from a pipe - the name given to the tool is the same
+	// string every time, so the report must be the same (a name predicate that consults the file system,
+	// e.g. resolves links, is not a function of the name)
+	c04SameName(c, dir)
+
 	// the same inputs once more, interleaved (A, B, C, ... then in reverse): output must not depend on
 	// what was inspected in between
 	order := make([]int, 0, 2*len(inputs))
